@@ -354,10 +354,67 @@ def _func(tree, cls_name, fn_name):
     raise TranslatorError(f"{cls_name}.{fn_name} not found")
 
 
+_MODCONSTS: dict = {}     # name -> int, for module-level names bound exactly once to a constant integer expression
+
+_CONST_FILES = ["ipv8/community.py", "ipv8/messaging/anonymization/community.py", "ipv8/messaging/anonymization/crypto.py",
+                "ipv8/messaging/anonymization/payload.py", "ipv8/messaging/anonymization/exit_socket.py",
+                "ipv8/messaging/interfaces/endpoint.py", "ipv8/messaging/interfaces/udp/endpoint.py",
+                "ipv8/messaging/interfaces/statistics_endpoint.py", "ipv8/messaging/serialization.py",
+                "ipv8/peerdiscovery/network.py", "ipv8/bootstrapping/udpbroadcast/bootstrapper.py"]
+
+
+def _load_module_constants():
+    """
+    Named constants: a module-level (or class-level) name that is assigned exactly once in its file, to an integer literal
+    or to +,-,* / len(bytes literal) of such, stands for that integer wherever the translator expects a literal.  A name
+    that is assigned twice, augmented, declared `global`, or bound to different values in two anchored files is not
+    resolved (the translator then fails as before).
+    """
+    _MODCONSTS.clear()
+    seen: dict = {}
+    for rel in _CONST_FILES:
+        tree = ast.parse((REPO / rel).read_text())
+        counts: dict = {}
+        for n in ast.walk(tree):
+            if isinstance(n, (ast.Assign, ast.AnnAssign, ast.AugAssign)):
+                for t in (n.targets if isinstance(n, ast.Assign) else [n.target]):
+                    if isinstance(t, ast.Name):
+                        counts[t.id] = counts.get(t.id, 0) + (1 if isinstance(n, (ast.Assign, ast.AnnAssign)) else 2)
+            if isinstance(n, ast.Global):
+                for g in n.names:
+                    counts[g] = counts.get(g, 0) + 2
+        scopes = [tree.body] + [c.body for c in tree.body if isinstance(c, ast.ClassDef)]
+        for body in scopes:
+            for n in body:
+                if isinstance(n, (ast.Assign, ast.AnnAssign)) and n.value is not None:
+                    tgt = n.targets[0] if isinstance(n, ast.Assign) and len(n.targets) == 1 else getattr(n, "target", None)
+                    if isinstance(tgt, ast.Name) and counts.get(tgt.id) == 1:
+                        try:
+                            v = _int(n.value)
+                        except TranslatorError:
+                            continue
+                        if tgt.id in seen and seen[tgt.id] != v:
+                            _MODCONSTS.pop(tgt.id, None)
+                            seen[tgt.id] = None
+                        elif seen.get(tgt.id, v) is not None:
+                            seen[tgt.id] = v
+                            _MODCONSTS[tgt.id] = v
+
+
 def _int(e):
-    if isinstance(e, ast.Constant) and isinstance(e.value, int):
+    if isinstance(e, ast.Constant) and isinstance(e.value, int) and not isinstance(e.value, bool):
         return e.value
-    raise TranslatorError(f"expected an integer literal, got {ast.dump(e)[:80]}")
+    if isinstance(e, ast.Name) and e.id in _MODCONSTS:
+        return _MODCONSTS[e.id]
+    if isinstance(e, ast.Attribute) and isinstance(e.value, ast.Name) and e.value.id in ("self", "cls") and e.attr in _MODCONSTS:
+        return _MODCONSTS[e.attr]
+    if isinstance(e, ast.BinOp) and isinstance(e.op, (ast.Add, ast.Sub, ast.Mult)):
+        l, r = _int(e.left), _int(e.right)
+        return l + r if isinstance(e.op, ast.Add) else l - r if isinstance(e.op, ast.Sub) else l * r
+    if isinstance(e, ast.Call) and ast.unparse(e.func) == "len" and len(e.args) == 1 and isinstance(e.args[0], ast.Constant) \
+            and isinstance(e.args[0].value, (bytes, str)):
+        return len(e.args[0].value)
+    raise TranslatorError(f"expected an integer literal or a once-assigned named integer constant, got {ast.dump(e)[:80]}")
 
 
 def _gate_constants(fn, var: str, where: str) -> dict:
@@ -667,6 +724,7 @@ def check_transport_classes():
 
 
 def ast_constants() -> dict:
+    _load_module_constants()
     c: dict = {}
     tree = ast.parse((REPO / "ipv8/community.py").read_text())
     c["pub"] = _gate_constants(_func(tree, "Community", "on_packet"), "data", "Community.on_packet")
